@@ -68,7 +68,9 @@ func (f *failingLimiter) RateLimitPreFetch(ctx *resolve.Context, info *resolve.F
 	return nil, nil
 }
 
-func (f *failingLimiter) RenderResponseExtension(ctx *resolve.Context, out io.Writer) error { return nil }
+func (f *failingLimiter) RenderResponseExtension(ctx *resolve.Context, out io.Writer) error {
+	return nil
+}
 
 func allowFromEnv() map[string]bool {
 	m := map[string]bool{}
@@ -80,7 +82,7 @@ func allowFromEnv() map[string]bool {
 	return m
 }
 
-var deferPart = pbt.Part[deferCase]{Name: "defer-reconstruction-and-stream", Quick: 24000, Thorough: 480000, Check: checkDefer,
+var deferPart = pbt.Part[deferCase]{Name: "defer-reconstruction-and-stream", Journal: true, Quick: 24000, Thorough: 480000, Check: checkDefer,
 	Gen: func(t *rapid.T) deferCase {
 		// @defer below a list of lists never delivers (finding C10-defer-under-nested-list)
 		l := fedgen.Gen(t, fedgen.Options{Allow: allowFromEnv(), NoRequires: !allowFromEnv()["requires"],
